@@ -74,6 +74,10 @@ func renumStream(in replayInput, orig *tengo.Bytecode, before []tengo.Object, de
 		res.Dist("renum-skipped-compiles-differ")
 		return
 	}
+	if len(before) > maxModelConsts { // the index search and the list-based check are quadratic
+		res.Dist("renum-skipped-constant-or-size")
+		return
+	}
 	cm, ok, scalar := renumIndexMap(before, ded.Constants)
 	if !ok && !scalar {
 		res.Dist("renum-skipped-constant-or-size")
@@ -85,7 +89,7 @@ func renumStream(in replayInput, orig *tengo.Bytecode, before []tengo.Object, de
 			Impl: "a constant of the original pool has no counterpart in the de-duplicated pool"})
 		return
 	}
-	line, ok := lib.RenumLine(orig, ded, cm, 24000, 3000)
+	line, ok := lib.RenumLine(orig, ded, cm, 24000, maxModelConsts)
 	if !ok {
 		res.Dist("renum-skipped-constant-or-size")
 		return
@@ -108,6 +112,20 @@ func renumStream(in replayInput, orig *tengo.Bytecode, before []tengo.Object, de
 		}
 		if moved {
 			res.Dist("renum-checked-with-moved-function-constant")
+		}
+		// ok <#fn> <#starts> <checkDedupPre> <floatsDistinctB> <outputIsModel>: is this very pair one the universal
+		// theorem speaks about (Tengo.Props.C12Univ.covered_renum / covered_program)?
+		f := strings.Fields(ans)
+		if len(f) >= 6 {
+			switch {
+			case f[3] == "1" && f[5] == "1" && f[4] == "1":
+				res.Dist("renum-covered-by-universal-theorem")
+			case f[3] == "1" && f[5] == "1":
+				res.Dist("renum-covered-by-universal-theorem-expand-form(duplicated-floats)")
+			default:
+				res.Disagree(lib.Disagreement{Stream: "renum-universal", Input: in, Model: ans,
+					Impl: "the program must satisfy the universal theorem's hypotheses (checkDedupPre) and the real RemoveDuplicates output must be the model's (outputIsModel)"})
+			}
 		}
 		return
 	}
